@@ -107,19 +107,23 @@ claim("C05", "proof",
       "equivalent request that forces buffering.",
       TIE, "Lean 4 refinement theorem (induction over the lines with an invariant on the pending bound) + two-algorithm oracle", "§4 C05")
 claim("C12", "proof",
-      "In the model every Rust panic site is a checked operation yielding Status.panic; theorems show it unreachable (parser: for every string; engines: see "
-      "evidence for the list proved so far) and that range expansion is bounded by the record length, not the index value. The implementation oracle "
-      "carries what the model abstracts: ALL bounds strings ≤ L symbols × every mode in-process under catch_unwind + watchdog, and random adversarial "
-      "argv × stdin on the debug (overflow checks) and release (panic=abort) binaries under a 10 s timeout and RLIMIT_AS 1 GiB.",
+      "In the model every Rust panic site is a checked operation yielding Status.panic. Theorems dispatch_no_panic / mainModel_total: for EVERY bounds argument the "
+      "parser accepts (parsing itself never panics, for every string), every option set, every input and segmentation, main's dispatch ends with status ok or fail — "
+      "general engine (any delimiter incl. empty, all flags), character mode, fast lane, bytes, both -l algorithms, -M; regex delimiters under the find_iter contract. "
+      "Range expansion is bounded by the record length, not the index value; fuel of the trim loop provably suffices. The implementation oracle carries what the model "
+      "abstracts: ALL bounds strings ≤ L symbols × every mode, a boundary stream for the scanning loops, and adversarial argv × stdin on the debug and release binaries "
+      "(timeout 10 s, RLIMIT_AS 1 GiB).",
       TIE + " Panic/hang sites inside third-party crates (regex, serde_json, bstr) are reachable only by the implementation oracle.",
-      "Lean 4 theorems (unreachability of modelled panic sites) + adversarial CLI / in-process exploration", "§4 C12")
+      "Lean 4 theorems (unreachability of modelled panic sites, end to end from the parser) + adversarial CLI / in-process exploration", "§4 C12")
 claim("C14", "proof",
-      "Theorems: under a writer failing after k bytes the delivered bytes are a prefix of the fault-free output, a cut never ends in a successful exit, a "
-      "successful exit delivered everything, a fault never produces a panic; a propagated read error is never a success and leaves written bytes untouched "
-      "(read-side prefix/monotonicity theorems: see evidence). Fault enumeration: main's dispatch with Read/Write doubles failing at EVERY byte position, "
-      "model = implementation on each; real binary with RLIMIT_FSIZE=k (byte exact), /dev/full, closed pipe, stdin from a directory.",
+      "Theorems: under a writer failing after k bytes the delivered bytes are a prefix of the fault-free output, a cut never ends in a successful exit, a successful exit "
+      "delivered everything; under a reader failing after any prefix of the input (any segmentation) the run is not a success (except the one-line-at-a-time -l once "
+      "every bound is served, where the output is proved complete) and the delivered bytes are a prefix of the fault-free output, for every engine (read_fault_prefix, "
+      "stream_monotone); a failing record leaves the complete output of earlier records (failing_record). Fault enumeration: main's dispatch with Read/Write doubles "
+      "failing at EVERY byte position (model = implementation on each), short writes; real binary with RLIMIT_FSIZE=k (byte exact), /dev/full, closed pipe, stdin from a "
+      "directory.",
       TIE + " Kernel-side pipe/EPIPE timing and stderr delivery are observed at the CLI, not modelled.",
-      "Lean 4 theorems over a fault model (deliver / dispatchReadFault) + exhaustive fault-position enumeration", "§4 C14")
+      "Lean 4 theorems over a fault model (deliver / dispatchReadFault, prefix monotonicity) + exhaustive fault-position enumeration", "§4 C14")
 claim("C18", "proof",
       "Theorem parse_eq_spec: for EVERY string, UserBoundsList::from_str's model accepts exactly what an independent grammar (maximal-munch lexer + token "
       "parser + declarative bound syntax) accepts and yields the same list; plus: never panics, accepted bounds are non-zero i32 with same-sign ranges "
